@@ -62,6 +62,8 @@ def parseOutcome (tok : String) : Option Outcome :=
   match tok.toList with
   | ['r'] => some .result
   | ['n'] => some .unpicklable
+  | ['R'] => some .bigResult
+  | ['k'] => some .cancelledInside
   | 'u' :: rest => (String.ofList rest).toNat?.map .usage
   | 'i' :: rest => (String.ofList rest).toNat?.map .internal
   | _ => none
@@ -73,7 +75,11 @@ def parseEv (tok : String) : Option Ev :=
   | ["s"] => some .stop
   | ["p"] => some .pause
   | ["d"] => some .resume
-  | ["l"] => some .lose
+  | ["l", cls, site] => do
+    let k ← (match cls with | "reset" => some LossClass.reset | "pipe" => some .brokenPipe
+                            | "abort" => some .aborted | _ => none)
+    let st ← (match site with | "w" => some LossSite.write | "d" => some .drain | _ => none)
+    pure (.lose k st)
   | ["c", seq, o] => do pure (.complete (← seq.toNat?) (← parseOutcome o))
   | _ => none
 
@@ -83,6 +89,7 @@ def kindStr : RKind → String
   | .failure false (some c) => s!"fi{c}"
   | .failure _ none => "fr"
   | .sentinel => "s"
+  | .cancelFailure => "fc"
 
 def failStr : Failure → String
   | .badHeader => "badHeader" | .notCall => "notCall" | .unpicklable => "unpicklable"
